@@ -221,6 +221,25 @@ Proof.
   intros Hx Hy. rewrite !same_net_meet_r.
   apply (sim_meet node node (Nets.step d) (Nets.step d') (valid d) phi H_total sim_commute phi_inj x y Hx Hy).
 Qed.
+(* the leaf device (or sub-module) an instance element stands for is kept *)
+Lemma sim_inst p i e port k m x : vmod_at d p = Ok m -> find_inst (m_insts m) i = Some x -> elem_ok x e = true ->
+  exists m' x', vmod_at d' (tr_path p) = Ok m' /\ find_inst (m_insts m') (fst (rho m (i, e))) = Some x' /\
+    tgt_rel mu (i_of x) (i_of x') /\
+    phi (NPort p i e port k) = NPort (tr_path p) (fst (rho m (i, e))) (snd (rho m (i, e))) port k.
+Proof.
+  intros Hm Hf He. destruct (vmod_at_tr _ _ Hm) as [m' [Hm' R]]. destruct (H_inst _ _ _ _ _ R Hf He) as [x' [Hf' [_ Ht]]].
+  exists m', x'. split; [exact Hm'|]. split; [exact Hf'|]. split; [exact Ht|]. cbn [phi]. rewrite Hm. reflexivity.
+Qed.
+
+Theorem sim_dev n dev : valid d n -> dev_at d n = Ok dev -> dev_at d' (phi n) = Ok dev.
+Proof.
+  destruct n as [p s k|p i e port k|p s k]; cbn [valid dev_at phi]; [tauto| |tauto].
+  intros [m [x [w [Hm [Hf [He _]]]]]]. rewrite Hm. cbn [bind]. rewrite Hf. cbn [ofopt bind dev_at].
+  destruct (sim_inst p i e port k m x Hm Hf He) as [m' [x' [Hm' [Hf' [Ht _]]]]]. rewrite Hm'. cbn [bind]. rewrite Hf'. cbn [ofopt bind].
+  destruct (i_of x) as [j|dv ps], (i_of x') as [j'|dv' ps']; cbn [tgt_rel] in Ht; try tauto; try discriminate.
+  destruct Ht as [-> _]. tauto.
+Qed.
+
 End Sim.
 
 (* a simulation that renames nothing is the identity on nodes *)
